@@ -301,3 +301,85 @@ theorem pendList_mem (pool : Pool) (now timeout : Int) (l : List Pend) (keep : L
             · split at h <;> (simp at h; obtain ⟨_, rfl, _⟩ := h; exact this)
 
 end C33
+
+namespace C33
+
+/-! ### some segments in the pool, some not -/
+
+/-- a segment none of whose short hashes is in the pool leaves its slots empty and clears `buildSuccess` -/
+theorem fill_absent (pool : Pool) (sh : TxId → SH) (l : List TxId) :
+    ∀ (pre post : Slots) (w : List (Nat × SH)) (ok : Bool), (∀ t ∈ l, pool.get (sh t) = none) →
+      fill pool (enumWork pre.length (l.map sh) ++ w) (pre ++ List.replicate l.length none ++ post) ok =
+        fill pool w (pre ++ List.replicate l.length none ++ post) (ok && l.isEmpty) := by
+  induction l with
+  | nil => intro pre post w ok _; simp [enumWork]
+  | cons t r ih =>
+    intro pre post w ok hab
+    have hget : (pre ++ List.replicate (t :: r).length none ++ post)[pre.length]? = some none := by
+      simp [List.replicate_succ]
+    have hnone := hab t (by simp)
+    simp only [List.map_cons, enumWork, List.cons_append, fill, hget, hnone]
+    have := ih (pre ++ [none]) post w false (fun x hx => hab x (by simp [hx]))
+    simp only [List.length_append, List.length_cons, List.length_nil, Nat.zero_add, Bool.false_and] at this
+    simpa [List.replicate_succ, List.append_assoc] using this
+
+/-- a segment with its availability mark -/
+abbrev Marked := List TxId × Bool
+
+def SegOk (pool : Pool) (sh : TxId → SH) (m : Marked) : Prop :=
+  if m.2 then ∃ t rest, m.1 = t :: rest ∧ pool.get (sh t) = some ⟨t, if rest = [] then [] else t :: rest⟩
+  else m.1 ≠ [] ∧ ∀ t ∈ m.1, pool.get (sh t) = none
+
+def segSlots (m : Marked) : Slots := if m.2 then m.1.map some else List.replicate m.1.length none
+
+def flatOf (marks : List Marked) : List TxId := (marks.map (·.1)).flatten
+
+theorem fill_mixed (pool : Pool) (sh : TxId → SH) (marks : List Marked) (hok : ∀ m ∈ marks, SegOk pool sh m) :
+    ∀ (pre : Slots) (ok : Bool),
+      fill pool (enumWork pre.length ((flatOf marks).map sh)) (pre ++ List.replicate (flatOf marks).length none) ok =
+        .ok (pre ++ (marks.map segSlots).flatten, ok && marks.all (·.2)) := by
+  induction marks with
+  | nil => intro pre ok; simp [flatOf, enumWork, fill]
+  | cons m marks ih =>
+    intro pre ok
+    obtain ⟨seg, b⟩ := m
+    have hok' : ∀ m ∈ marks, SegOk pool sh m := fun x hx => hok x (by simp [hx])
+    have hm := hok (seg, b) (by simp)
+    have e1 : enumWork pre.length ((flatOf ((seg, b) :: marks)).map sh) =
+        enumWork pre.length (seg.map sh) ++ enumWork (pre.length + seg.length) ((flatOf marks).map sh) := by
+      simp only [flatOf, List.map_cons, List.flatten_cons]
+      rw [List.map_append, enumWork_append, List.length_map]
+    have e2 : pre ++ List.replicate (flatOf ((seg, b) :: marks)).length none =
+        pre ++ List.replicate seg.length none ++ List.replicate (flatOf marks).length none := by
+      simp only [flatOf, List.map_cons, List.flatten_cons]
+      rw [List.length_append, ← List.replicate_append_replicate, List.append_assoc]
+    rw [e1, e2]
+    cases b with
+    | true =>
+      simp only [SegOk, if_true] at hm
+      obtain ⟨t, rest, rfl, hp⟩ := hm
+      rw [fill_segment pool sh t rest pre _ _ ok hp]
+      have h2 := ih hok' (pre ++ (t :: rest).map some) ok
+      simp only [List.length_append, List.length_map] at h2
+      rw [h2]
+      simp [segSlots, List.append_assoc]
+    | false =>
+      simp only [SegOk, Bool.false_eq_true, if_false] at hm
+      rw [fill_absent pool sh seg pre _ _ ok hm.2]
+      have hne : seg.isEmpty = false := by cases seg with | nil => exact absurd rfl hm.1 | cons _ _ => rfl
+      have h2 := ih hok' (pre ++ List.replicate seg.length none) (ok && seg.isEmpty)
+      simp only [List.length_append, List.length_replicate] at h2
+      rw [h2]
+      simp [segSlots, hne, List.append_assoc]
+
+theorem segSlots_all (marks : List Marked) (h : marks.all (·.2) = true) :
+    (marks.map segSlots).flatten = (flatOf marks).map some := by
+  induction marks with
+  | nil => rfl
+  | cons m r ih =>
+    simp only [List.all_cons, Bool.and_eq_true] at h
+    have := ih h.2
+    simp only [flatOf] at this ⊢
+    simp [segSlots, h.1, this]
+
+end C33
